@@ -11,7 +11,7 @@ PRED_CPP = "SparseGrids/tsgCoreOneDimensional.cpp"
 def emit_predicates(R):
     text = X.strip_comments(X.read_source(PRED_CPP))
     out = []
-    for f in ("isNonNested", "isSequence", "isGlobal", "isLocalPolynomial"):
+    for f in ("isNonNested", "isSequence", "isGlobal", "isLocalPolynomial", "isWavelet", "isFourier", "isSingleNodeGrowth"):
         (p,) = X.cut(PRED_CPP, r'bool\s+OneDimensionalMeta::%s\s*\(\s*TypeOneDRule\s+rule\s*\)' % f, text)
         h = X.r1_qualifiers(R, p.header)
         out.append('#line %d "%s"\n%s%s' % (p.line, X.REPO + "/" + p.rel, h, p.body))
@@ -171,4 +171,20 @@ def jobs(tier, seed, prop):
                        assumed=["family objects (GridGlobal/Sequence/LocalPolynomial/Wavelet/Fourier constructors, updateGrid, set*Refinement, loadNeededValues, clear/mergeRefinement) are stubs: they throw only before they mutate, refinement touches only `needed`",
                                 "vector / array arguments are ghost descriptors (identity and length)"],
                        label="wrapper TasmanianSparseGrid::%s over the ghost receiver" % w.tag))
+    if prop == "C14":
+        # the rule classes the make* wrappers test partition the rules: a rule that is accepted by two families (or by none) defeats the documented invalid_argument
+        lem = preds + '''
+void h_rule_classes(void){
+  TypeOneDRule r = (TypeOneDRule) nondet_int(); __CPROVER_assume(r >= rule_none && r <= rule_fourier);
+  int classes = (isGlobal(r) ? 1 : 0) + (isLocalPolynomial(r) ? 1 : 0) + (isWavelet(r) ? 1 : 0) + (isFourier(r) ? 1 : 0) + (r == rule_none ? 1 : 0);
+  __CPROVER_assert(classes == 1, "C14 every rule belongs to exactly one of the classes global / local polynomial / wavelet / fourier / none that the make* wrappers accept or reject");
+  __CPROVER_assert(!isSequence(r) || isGlobal(r), "C14 a sequence rule is a global rule");
+  __CPROVER_assert(!isNonNested(r) || isGlobal(r), "C14 a non-nested rule is a global rule");
+  __CPROVER_assert(!isSingleNodeGrowth(r) || isGlobal(r), "C14 single-node-growth rules are global rules");
+  __CPROVER_assert(!(isSequence(r) && isNonNested(r)), "C14 sequence rules are nested");
+  __CPROVER_assert(0, "VACUITY-CANARY");
+}
+'''
+        out.append(Job("api.rule_classes", '#include "tsg_shim.h"\nint tsg_exc;\n' + enums + lem, "h_rule_classes", timeout=60, functions=["SparseGrids/tsgCoreOneDimensional.cpp OneDimensionalMeta::isGlobal/isLocalPolynomial/isWavelet/isFourier/isSequence/isNonNested/isSingleNodeGrowth"],
+                       info={"functions": [], "rules_fired": {}}, label="rule-class predicates partition the rules"))
     return out
